@@ -9,11 +9,14 @@ Cases (first component is the tag, see coq/Run/C17_run.v):
                      df.cov, df.corr
   (3, parts, prog)   one CovarianceCounter per partition merged in the order given by `prog` (merge / self-merge)
 """
+import glob
 import itertools
+import json
 import math
+import os
 from fractions import Fraction
 
-from common.coqlit import Err
+from common.coqlit import Err, uncanon
 from pysparkling import Context
 from pysparkling.sql.session import SparkSession
 from pysparkling.sql.types import DoubleType, LongType, StructField, StructType
@@ -546,9 +549,27 @@ def rand_pairs(rng, n):
 SPECIAL = [float('inf'), float('-inf'), float('nan'), 1e308, -1e308, 1e200, 1e-320, 0.0, -0.0, 1.5]
 
 
+def _corpus():
+    d = os.path.join(os.environ.get('VERIF_ROOT', '/verif'), 'corpus', 'C17')
+    out = []
+    for f in sorted(glob.glob(os.path.join(d, '*.json'))):
+        try:
+            out.append(_listify(uncanon(json.load(open(f))['case'])))
+        except (OSError, ValueError, KeyError):
+            continue
+    return out
+
+
+def _listify(case):
+    """corpus cases come back with tuples for rows; partitions / programs must be lists"""
+    tag = case[0]
+    parts = [[tuple(r) if tag in (2, 3) else r for r in p] for p in case[1]]
+    return (tag, parts) + tuple(list(x) for x in case[2:])
+
+
 def generate(rng, tier):
     quick = tier == 'quick'
-    cases = []
+    cases = _corpus()
     # --- corner cases first
     for parts in ([[]], [[], []], [[], [], [], [], [], []], [[5]], [[], [5]], [[5], []], [[2.5], [2.5]],
                   [[1, 4, 9, 16, 25, 36]], [[1, 4], [9, 16], [25, 36]], [[1.5, 2.5]], [[1, 2, 3]], [[0, 4, 7, 4, 10]]):
@@ -578,7 +599,7 @@ def generate(rng, tier):
                 cases.append((0, cut(xs, sizes)))
 
     # --- (b) size-ratio branches: 11..60 elements, skewed partition sizes
-    for _ in range(150 if quick else 2500):
+    for _ in range(150 if quick else 1500):
         n = rng.randint(11, 60)
         xs = rand_number_list(rng, n)
         k = rng.randint(2, 6)
@@ -591,20 +612,20 @@ def generate(rng, tier):
                 cases.append((1, parts, prog))
 
     # --- (c) floats of mixed magnitude x compositions
-    for _ in range(4 if quick else 40):
+    for _ in range(4 if quick else 20):
         n = rng.randint(2, 5)
         xs = rand_number_list(rng, n)
         for k in range(1, 7):
             for sizes in compositions(n, k):   # all of them
                 cases.append((0, cut(xs, sizes)))
-    for _ in range(400 if quick else 6000):
+    for _ in range(400 if quick else 4000):
         n = rng.randint(0, 14)
         xs = rand_number_list(rng, n)
         k = rng.randint(1, 6)
         cases.append((0, cut(xs, random_sizes(rng, n, k))))
 
     # --- (d) merge orders on StatCounter objects
-    for _ in range(250 if quick else 4000):
+    for _ in range(250 if quick else 2000):
         n = rng.randint(0, 16)
         xs = rand_number_list(rng, n)
         k = rng.randint(1, 6)
@@ -617,7 +638,7 @@ def generate(rng, tier):
             for k in range(1, 5 if quick else 7):
                 for sizes in compositions(n, k):
                     parts = cut(xs, sizes)
-                    for prog in merge_orders(rng, k, 1, 0.3)[:3 if quick else 5]:
+                    for prog in merge_orders(rng, k, 1, 0.3)[:3]:
                         cases.append((1, parts, prog))
 
     # --- (e) covariance: DataFrame and CovarianceCounter merge orders
@@ -626,14 +647,14 @@ def generate(rng, tier):
             for k in range(1, 5 if quick else 7):
                 for sizes in compositions(n, k):
                     cases.append((2, cut(ps, sizes)))
-    for _ in range(300 if quick else 4000):
+    for _ in range(300 if quick else 2500):
         n = rng.choice([0, 1, 2, 3, 4, 5, 6, 8, 12, 20, 40])
         ps = rand_pairs(rng, n)
         k = rng.randint(1, 6)
         sizes = skewed_sizes(rng, n, k) if n >= 12 and rng.random() < 0.5 else random_sizes(rng, n, k)
         parts = cut(ps, sizes)
         cases.append((2, parts))
-        for prog in merge_orders(rng, k, 2, 0.2)[:2 if quick else 5]:
+        for prog in merge_orders(rng, k, 2, 0.2)[:2 if quick else 4]:
             cases.append((3, parts, prog))
 
     # --- non-finite / overflowing inputs: bit-exactness of the float model only (the oracle skips them)
@@ -649,9 +670,26 @@ def generate(rng, tier):
     return cases
 
 
+def _ranked(parts, pairs):
+    """The same partition shape with every value replaced by its rank among the distinct values (small ints)."""
+    flat = [v for p in parts for v in p]
+    try:
+        if pairs:
+            rx = {v: i for i, v in enumerate(sorted({r[0] for r in flat}))}
+            ry = {v: i for i, v in enumerate(sorted({r[1] for r in flat}))}
+            return [[(rx[r[0]], ry[r[1]]) for r in p] for p in parts]
+        rk = {v: i for i, v in enumerate(sorted(set(flat)))}
+        return [[rk[v] for v in p] for p in parts]
+    except TypeError:
+        return parts
+
+
 def shrink_candidates(case):
     tag, parts = case[0], case[1]
     flat = [v for p in parts for v in p]
+    simple = _ranked(parts, tag in (2, 3))
+    if simple != parts or any(type(a) is not type(b) for p, q in zip(simple, parts) for a, b in zip(p, q)):
+        yield (tag, simple) + tuple(case[2:])
     if tag in (0, 2):
         # fewer partitions, fewer elements, simpler values
         for i in range(len(parts)):
@@ -698,7 +736,7 @@ def extra_checks(rng, tier, workdir):  # pylint: disable=unused-argument
     max_len = 4 if quick else 6
     for n in range(0, max_len + 1):
         for xs in itertools.product(alphabet, repeat=n):
-            if n >= 5 and rng.random() < (0.95 if n == 6 else 0.6):
+            if n >= 5 and rng.random() < (0.97 if n == 6 else 0.75):
                 continue
             ref_n = n
             for k in range(1, 7):
